@@ -221,7 +221,7 @@ func invalidBlockScenario(variant int, viaPolka bool) scenario {
 			s.Fire()
 		}
 		if viaPolka {
-			s.Votes(kproto.PrevoteType, r, BlockIDOf(b), s.Others)     // > 2/3 prevote the invalid block
+			s.Votes(kproto.PrevoteType, r, BlockIDOf(b), s.Others)   // > 2/3 prevote the invalid block
 			s.Votes(kproto.PrecommitType, r, BlockIDOf(b), s.Others) // ... and precommit it
 		}
 		return true
@@ -316,7 +316,7 @@ var commitThenProposal = scenario{"commit-step-then-proposal-of-the-current-roun
 		return false
 	}
 	s.Propose(other, 0, false) // the round's proposer proposed another block (only the proposal message arrives)
-	s.Parts(b)                  // the committed block's parts must still complete it
+	s.Parts(b)                 // the committed block's parts must still complete it
 	return s.RS().Height == h+1
 }}
 
